@@ -43,6 +43,9 @@ def exchange(inst, flavour, pw, ids, x, y, pattern, acc, record=None):
     ncalls = 4
     if m1[0] != "ok" or m2[0] != "ok":
         return m1, m2, m1, m2, ncalls
+    if record is not None:
+        # scalars the two instances report (the entropy -> scalar mapping is C11's subject)
+        record["x"], record["y"] = T.read_scalar(inst, a), T.read_scalar(inst, b)
     reps1 = {"none": 0, "first": 1, "second": 0, "both": 1, "both-twice": 2}[pattern]
     reps2 = {"none": 0, "first": 0, "second": 1, "both": 1, "both-twice": 2}[pattern]
     try:
@@ -62,13 +65,14 @@ def exchange(inst, flavour, pw, ids, x, y, pattern, acc, record=None):
 def judge(inst, flavour, pw, w, ids, x, y, pattern, acc):
     R, rp = inst.ref, inst.rp
     s1, s2 = ("A", "B") if flavour == "AB" else ("S", "S")
-    k1, k2, m1, m2, nc = exchange(inst, flavour, pw, ids, x, y, pattern, acc)
+    obs = {}
+    k1, k2, m1, m2, nc = exchange(inst, flavour, pw, ids, x, y, pattern, acc, record=obs)
     acc.n(transitions=nc)
-    # reference classification of the run (protocol-level coincidences the statement exempts)
-    if m1[0] == "ok" and m2[0] == "ok":
-        p1, p2 = m1[1][1:], m2[1][1:]          # the exemptions of the statement are about the elements actually sent
-    else:
-        p1, p2 = RS.payload(rp, s1, w, x), RS.payload(rp, s2, w, y)
+    # reference classification of the run: the two coincidences the statement exempts are properties of the PROTOCOL for the
+    # scalars the instances drew (a bug that makes a message the identity is not exempt)
+    xo = x if obs.get("x") is None else obs["x"]
+    yo = y if obs.get("y") is None else obs["y"]
+    p1, p2 = RS.payload(rp, s1, w, xo), RS.payload(rp, s2, w, yo)
     ident = R.enc(R.identity)
     F = fam(inst)
     if p1 == p2:
